@@ -47,27 +47,70 @@ func initBfKeys() {
 	if bfKeys != nil {
 		return
 	}
+	// keys p1p2p3 + "de": one bucket, pairwise different characters at each of the first three
+	// positions, so that probes MIXING the prefixes of members (same length, same tail, every
+	// character seen at its position in some member, some of them in the members' bucket) exist
 	byBucket := map[uint64][][]byte{}
 	for a := 'a'; a <= 'z'; a++ {
 		for b := 'a'; b <= 'z'; b++ {
-			k := []byte("abc" + string(a) + string(b))
-			byBucket[djb2(k)%64] = append(byBucket[djb2(k)%64], k)
+			for c := 'a'; c <= 'z'; c++ {
+				k := []byte(string(a) + string(b) + string(c) + "de")
+				byBucket[djb2(k)%64] = append(byBucket[djb2(k)%64], k)
+			}
 		}
 	}
+	pick := func(ks [][]byte) [][]byte {
+		var out [][]byte
+		used := [3]map[byte]bool{{}, {}, {}}
+		for _, k := range ks {
+			if used[0][k[0]] || used[1][k[1]] || used[2][k[2]] {
+				continue
+			}
+			for p := 0; p < 3; p++ {
+				used[p][k[p]] = true
+			}
+			out = append(out, k)
+			if len(out) == 8 {
+				break
+			}
+		}
+		return out
+	}
 	var best [][]byte
-	for _, ks := range byBucket {
-		if len(ks) > len(best) || (len(ks) == len(best) && string(ks[0]) < string(best[0])) {
-			best = ks
+	var bestBucket uint64
+	for b := uint64(0); b < 64; b++ {
+		if ks := pick(byBucket[b]); len(ks) > len(best) {
+			best, bestBucket = ks, b
 		}
 	}
 	if len(best) < 8 {
 		infra("no colliding key set found")
 	}
 	bfKeys = map[string][]byte{}
+	member := map[string]bool{}
 	for i := 0; i < 6; i++ {
 		bfKeys[fmt.Sprintf("k%d", i+1)] = best[i]
+		member[string(best[i])] = true
 	}
 	bfProbes = [][]byte{best[6], best[7], []byte("ab"), []byte("abc"), []byte("a"), []byte("xbcde"), []byte("abcd"), append(append([]byte{}, best[0]...), 'z'), best[0][:4]}
+	// mixes of the members' prefixes, in the members' bucket first
+	var other [][]byte
+	for _, x := range best[:6] {
+		for _, y := range best[:6] {
+			for _, z := range best[:6] {
+				k := []byte{x[0], y[1], z[2], 'd', 'e'}
+				if member[string(k)] {
+					continue
+				}
+				if djb2(k)%64 == bestBucket {
+					bfProbes = append(bfProbes, k)
+				} else if len(other) < 12 {
+					other = append(other, k)
+				}
+			}
+		}
+	}
+	bfProbes = append(bfProbes, other...)
 }
 
 type bfEdge struct {
